@@ -77,7 +77,10 @@ Zero(P, t) == LET kd == Kind(P, t) IN
     [] kd = "map" -> [k |-> "map", pairs |-> <<>>]
     [] OTHER -> Unset
 \* the value of a field nobody assigned: its default literal, else (required / default requiredness) the zero value, else unset
-Unassigned(P, f) == IF f.dflt # NoDflt THEN f.dflt ELSE IF f.req = "optional" THEN Unset ELSE Zero(P, f.t)
+\* a default written Enum.VALUE stands for the number Thrift gave that value
+Lit(P, d) == IF d.k = "id" THEN LET e == EnumNamed(P, d.e) IN IntV(e.numbered[CHOOSE i \in Idx(e.numbered) : e.numbered[i].name = d.v].value) ELSE d
+DfltOf(P, f) == IF f.dflt = NoDflt THEN NoDflt ELSE Lit(P, f.dflt)
+Unassigned(P, f) == IF f.dflt # NoDflt THEN DfltOf(P, f) ELSE IF f.req = "optional" THEN Unset ELSE Zero(P, f.t)
 \* a union has no defaults: a member is either the one that is set or absent
 UnassignedIn(P, s, f) == IF s.kind = "union" THEN Unset ELSE Unassigned(P, f)
 
@@ -100,7 +103,7 @@ EncStruct(P, n, v) == LET s == StructNamed(P, n)
                           \* as not set in Go (IsSet compares with the default; containers and binary are nil when not set)
                           present(f) == IF f.req = "optional"
                                         THEN /\ FieldValue(v, f.id) # Unset
-                                             /\ ~(s.kind # "union" /\ f.dflt # NoDflt /\ FieldValue(v, f.id) = f.dflt
+                                             /\ ~(s.kind # "union" /\ f.dflt # NoDflt /\ FieldValue(v, f.id) = DfltOf(P, f)
                                                     /\ Kind(P, f.t) \notin {"list", "set", "map", "binary", "struct"})
                                         ELSE eff(f) # Unset
                           fs == SelectSeq(s.fields, present) IN
@@ -125,7 +128,7 @@ DecStruct(P, n, w) == LET s == StructNamed(P, n)
                           \* an optional field with a default that is absent stays not set; Go shows that either as nil (containers)
                           \* or as the default value itself (scalars, where not-set means equal to the default): "dflt" allows both
                           val(f) == IF hits(f) = {}
-                                    THEN IF f.req = "optional" /\ f.dflt # NoDflt THEN [k |-> "dflt", v |-> f.dflt]
+                                    THEN IF f.req = "optional" /\ f.dflt # NoDflt THEN [k |-> "dflt", v |-> DfltOf(P, f)]
                                          ELSE UnassignedIn(P, s, f)
                                     ELSE DecV(P, f.t, w.fields[CHOOSE i \in hits(f) : \A j \in hits(f) : j <= i].f)
                           missing == \/ \E i \in Idx(s.fields) : s.fields[i].req = "required" /\ hits(s.fields[i]) = {}
